@@ -536,7 +536,9 @@ class ApplyTemplates(Transformer_InPlace):
     def template_usage(self, c):
         name = c[0].name
         args = c[1:]
-        result_name = "%s{%s}" % (name, ",".join(a.name for a in args))
+        # Terminals of one name can differ in whether they are filtered out of the tree (the literal "a" and A: "a",
+        # or a literal passed from a ! rule), and the instances made for them must not be shared.
+        result_name = "%s{%s}" % (name, ",".join(a.name + ('~' if a.is_term and a.filter_out else '') for a in args))
         if result_name not in self.created_templates:
             self.created_templates.add(result_name)
             (_n, params, tree, options) ,= (t for t in self.rule_defs if t[0] == name)
